@@ -10,7 +10,7 @@ Element-wise reading: a tensor parameter becomes one scalar `T N`; the model of 
 tensor is `map` of the kernel.  `.unsqueeze(-1)`, `.to(device=...)` are identities per element.
 """
 from __future__ import annotations
-import ast, hashlib, json, os, sys
+import ast, hashlib, json, os, re, sys
 from fractions import Fraction
 
 REPO = os.environ.get("INFERNO_REPO", "/repo")
@@ -495,6 +495,11 @@ class Translator:
                     return (f"(abs N {self.toT(E(obj))})", "T")
                 if meth == "clamp" and not args and set(kws) == {"min"}:
                     return (f"(tmax N {self.toT(E(obj))} {self.toT(E(kws['min']))})", "T")
+                if meth == "clamp" and not args and set(kws) == {"min", "max"}:      # min(max(x, lo), hi)
+                    return (f"(tmin N (tmax N {self.toT(E(obj))} {self.toT(E(kws['min']))}) {self.toT(E(kws['max']))})", "T")
+                if meth == "bool" and not args and not kws:                          # tensor.bool(): x != 0
+                    v = E(obj)
+                    return v if v[1] == "B" else (f"(neb N {self.toT(v)} (zero N))", "B")
                 if meth == "clamp_min" and len(args) == 1:
                     return (f"(tmax N {self.toT(E(obj))} {self.toT(E(args[0]))})", "T")
                 if meth == "clamp_max" and len(args) == 1:
@@ -1876,8 +1881,288 @@ def _nc_clear(cn, f, done, out):
                    f"  (if (negb keep_adaptations) then (zero N) else self_{buf}).\n")
 
 
+# ------------------------------------------------------------------------------------------------------------------
+# Synapse classes (inferno/neural/synapses/{current,expcurrent,mixins}.py): what the four shipped classes compute per
+# ELEMENT (one synapse, one batch sample), generated from the methods themselves.
+#   forward:   the conversion of inputs[0] to a spike, the value pushed to every current record (in terms of the
+#              attributes read - parameters self_<attr>, sorted - the input inputs_0 and, for DeltaPlusCurrent, the list of
+#              injected values inputs_rest), the order in which the records are written, what is returned;
+#   current:   the getter (the delta synapse's closure spike_to_current, CurrentMixin.current, the double exponential's
+#              difference);   clear: which records are reset to which value;
+#   _synparam_at / DoubleExponentialCurrent.current_at: the undelayed test, the clamped selector and the overbound decision.
+# Only the statement shapes checked below are accepted.  NOT generated (hand model + correspondence): record mechanics
+# (RecordTensor), tensor shapes / broadcasting, RecordTensor.select, the argument wiring of current_at / spike_at.
+SC_ATTRS = {a: "T" for a in "dt spike_charge time_constant tc_decay tc_rise current pos_current neg_current".split()}
+SC_RECORD = {"spike": 0, "spike_": 0, "current": 1, "current_": 1, "pos_current": 1, "pos_current_": 1,
+             "neg_current": 2, "neg_current_": 2}
+SC_CLASSES = {"inferno/neural/synapses/current.py": ["DeltaCurrent", "DeltaPlusCurrent"],
+              "inferno/neural/synapses/expcurrent.py": ["SingleExponentialCurrent", "DoubleExponentialCurrent"]}
+
+
+class _SCPre(ast.NodeTransformer):
+    """self.X / synapse.X reads -> self_X;  inputs[0] -> inputs_0;  self.R_.peek() -> R_peek;  value.duration -> value_duration ..."""
+
+    def __init__(self, where, used, owner="self", extra=None):
+        self.where, self.used, self.owner, self.extra = where, used, owner, extra or {}
+
+    def visit_Subscript(self, n):
+        if ast.unparse(n) == "inputs[0]":
+            return ast.Name(id="inputs_0", ctx=ast.Load())
+        raise TranslationError(f"{self.where}: unsupported subscript {ast.unparse(n)}")
+
+    def visit_Call(self, n):
+        u = ast.unparse(n)
+        if u in self.extra:
+            return ast.Name(id=self.extra[u], ctx=ast.Load())
+        m = re.fullmatch(r"self\.(\w+_)\.peek\(\)", u)
+        if m and m.group(1) in SC_RECORD:
+            return ast.Name(id=m.group(1) + "peek", ctx=ast.Load())
+        return self.generic_visit(n)
+
+    def visit_Attribute(self, n):
+        u = ast.unparse(n)
+        if u in self.extra:
+            return ast.Name(id=self.extra[u], ctx=ast.Load())
+        if isinstance(n.value, ast.Name) and n.value.id == self.owner:
+            if n.attr not in SC_ATTRS:
+                raise TranslationError(f"{self.where}: read of {self.owner}.{n.attr} is outside the modelled attributes")
+            self.used.add(n.attr)
+            return ast.Name(id="self_" + n.attr, ctx=ast.Load())
+        return self.generic_visit(n)
+
+    def visit_Name(self, n):
+        if n.id in ("self", "synapse") and n.id == self.owner:
+            raise TranslationError(f"{self.where}: bare use of {n.id}")
+        return n
+
+
+def _sc_expr(where, node, env, owner="self", extra=None, want="T"):
+    used: set[str] = set()
+    e = _SCPre(where, used, owner, extra).visit(ast.parse(ast.unparse(node)).body[0].value)
+    tr = Translator({})
+    full = {"self_" + a: t for a, t in SC_ATTRS.items()}
+    full.update(env)
+    v = tr.expr(e, full)
+    if tr.extras:
+        raise TranslationError(f"{where}: needs special functions")
+    if want == "T":
+        v = (tr.toT(v), "T")
+    elif v[1] != want:
+        raise TranslationError(f"{where}: expected a value of kind {want}, got {v[1]}")
+    return v[0], used
+
+
+def _sc_man(man, path, name, f):
+    man.append({"module": "SynapseClasses", "source": path, "function": name, "lines": [f.lineno, f.end_lineno],
+                "sha256": hashlib.sha256(ast.dump(f).encode()).hexdigest()})
+
+
+def _sc_params(used):
+    return "".join(f" (self_{a} : T N)" for a in sorted(used))
+
+
+def _sc_methods(cdef, getter=True):
+    out = {}
+    for n in cdef.body:
+        if isinstance(n, ast.FunctionDef):
+            decs = [ast.unparse(d) for d in n.decorator_list]
+            if any(d.endswith(".setter") for d in decs):
+                out[n.name + ".setter"] = n
+            else:
+                out[n.name] = n
+    return out
+
+
+def _sc_overbound(where, body, names, out, prefix, owner_extra):
+    """the tail shared by _synparam_at and DoubleExponentialCurrent.current_at:
+         if <undelayed>: bounded_selector = 0; res = ...; [if selector.ndim == res.ndim + 1: res = res.unsqueeze(-1).expand(*selector.shape)]
+         else: bounded_selector = selector.clamp(min=0, max=<duration>); res = ...
+         if <overbound> is not None: res = torch.where((selector - bounded_selector).abs() <= <tolerance>, res, <overbound>)
+         return res
+       names = (undelayed test text, duration text, tolerance text, overbound text); returns (undelayed res expr, delayed res expr)"""
+    und, dur, tol, ob = names
+    if len(body) != 3 or not isinstance(body[0], ast.If) or not isinstance(body[1], ast.If) or not isinstance(body[2], ast.Return):
+        raise TranslationError(f"{where}: expected `if undelayed/else`, `if overbound is not None`, `return res`")
+    br, obif, ret = body
+    if ast.unparse(br.test) != und or ast.unparse(ret.value) != "res":
+        raise TranslationError(f"{where}: unexpected test {ast.unparse(br.test)} / return {ast.unparse(ret.value)}")
+    ub, db = _nc_strip(br.body), _nc_strip(br.orelse)
+    expand = "if selector.ndim == res.ndim + 1:\n    res = res.unsqueeze(-1).expand(*selector.shape)"
+    if len(ub) != 3 or ast.unparse(ub[2]) != expand or len(db) != 2:
+        raise TranslationError(f"{where}: unexpected statements in the undelayed / delayed branch")
+    for blk in (ub, db):
+        if [ast.unparse(t) for st in blk[:2] for t in getattr(st, "targets", [])] != ["bounded_selector", "res"]:
+            raise TranslationError(f"{where}: expected `bounded_selector = ...; res = ...`")
+    b0, _ = _sc_expr(where, ub[0].value, {})
+    b1, _ = _sc_expr(where, db[0].value, {"selector": "T", "duration": "T"}, extra={dur: "duration"})
+    if ast.unparse(obif.test) != f"{ob} is not None" or obif.orelse or len(obif.body) != 1 \
+            or [ast.unparse(t) for t in obif.body[0].targets] != ["res"]:
+        raise TranslationError(f"{where}: expected `if {ob} is not None: res = torch.where(...)`")
+    w, _ = _sc_expr(where, obif.body[0].value, {"selector": "T", "bounded_selector": "T", "tolerance": "T", "res": "T", "overbound": "T"},
+                    extra={tol: "tolerance", ob: "overbound"})
+    t0, _ = _sc_expr(where, br.test, {"recordsz": "Z"}, extra={und.split(" == ")[0]: "recordsz"}, want="B")
+    out.append(f"(* {where}: undelayed access iff the record has a single slot *)\n"
+               f"Definition {prefix}_undelayed (recordsz : Z) : bool :=\n  {t0}.\n")
+    out.append(f"Definition {prefix}_bounded_undelayed (N : Num) : T N :=\n  {b0}.\n")
+    out.append(f"Definition {prefix}_bounded (N : Num) (selector : T N) (duration : T N) : T N :=\n  {b1}.\n")
+    out.append(f"Definition {prefix}_overbound (N : Num) (selector : T N) (bounded_selector : T N) (tolerance : T N) (res : T N) "
+               f"(overbound : option (T N)) : T N :=\n  (match overbound with Some overbound => {w} | None => res end).\n")
+    return ub[1].value, db[1].value
+
+
+def translate_synapse_classes(repo: str = REPO):
+    out = ["(* GENERATED by tools/translate.py from inferno/neural/synapses/{current,expcurrent,mixins}.py -- do not edit *)",
+           "From Coq Require Import ZArith Bool List.", "From Inferno Require Import Base.Num.", "Import ListNotations.", ""]
+    man = []
+    # ---------------------------------------------------------------- mixins.py
+    mpath = "inferno/neural/synapses/mixins.py"
+    mtree = ast.parse(open(os.path.join(repo, mpath)).read())
+    out.append(f"(* ---------------------------------------------------------------- {mpath} *)")
+    fdefs = {n.name: n for n in mtree.body if isinstance(n, ast.FunctionDef)}
+    if "_synparam_at" not in fdefs:
+        raise TranslationError("_synparam_at not found")
+    f = fdefs["_synparam_at"]
+    if [a.arg for a in f.args.args] != ["value", "selector", "interpolation", "interp_kwargs", "tolerance", "overbound", "transform"]:
+        raise TranslationError("_synparam_at: unexpected parameters")
+    body = _nc_strip(f.body)
+    if not body or ast.unparse(body[0]) != "if not transform:\n    transform = lambda x: x":
+        raise TranslationError("_synparam_at: expected the identity default of `transform` first")
+    r0, r1 = _sc_overbound("_synparam_at", body[1:], ("value.recordsz == 1", "value.duration", "tolerance", "overbound"),
+                           out, "synparam_at", None)
+    if ast.unparse(r0) != "transform(value.peek())" or ast.unparse(r1) != \
+            "transform(value.select(bounded_selector, interpolation, tolerance=tolerance, interp_kwargs=interp_kwargs))":
+        raise TranslationError("_synparam_at: unexpected selected value " + ast.unparse(r0) + " / " + ast.unparse(r1))
+    _sc_man(man, mpath, "_synparam_at", f)
+    mcls = {n.name: n for n in mtree.body if isinstance(n, ast.ClassDef)}
+    for cn, prop, expect in (("CurrentMixin", "current", "self.current_.peek()"), ("SpikeMixin", "spike", "self.spike_.peek()")):
+        if cn not in mcls:
+            raise TranslationError(f"{cn} not found")
+        mm = _sc_methods(mcls[cn])
+        g, st = mm.get(prop), mm.get(prop + ".setter")
+        gb = _nc_strip(g.body) if g else []
+        sb = _nc_strip(st.body) if st else []
+        if len(gb) != 1 or not isinstance(gb[0], ast.Return) or ast.unparse(gb[0].value) != expect:
+            raise TranslationError(f"{cn}.{prop}: expected `return {expect}`")
+        rec = prop + "_"
+        conv = "value.bool()" if prop == "spike" else "value"
+        if len(sb) != 1 or ast.unparse(sb[0]) != f"self.{rec}.push({conv}, self.inplace)":
+            raise TranslationError(f"{cn}.{prop} setter: expected `self.{rec}.push({conv}, self.inplace)`")
+        out.append(f"(* {cn}.{prop}: getter = newest observation of record {SC_RECORD[rec]}, setter = push to it *)\n"
+                   f"Definition {cn}_{prop}_record : nat := {SC_RECORD[rec]}.\n")
+        _sc_man(man, mpath, f"{cn}.{prop}", g)
+        _sc_man(man, mpath, f"{cn}.{prop}.setter", st)
+    # ---------------------------------------------------------------- the four classes
+    for path, classes in SC_CLASSES.items():
+        tree = ast.parse(open(os.path.join(repo, path)).read())
+        cdefs = {n.name: n for n in tree.body if isinstance(n, ast.ClassDef)}
+        for cn in classes:
+            if cn not in cdefs:
+                raise TranslationError(f"{path}: class {cn} not found")
+            mm = _sc_methods(cdefs[cn])
+            for need in ("__init__", "forward", "clear"):
+                if need not in mm:
+                    raise TranslationError(f"{cn}.{need}: method not found")
+            out.append(f"(* ---------------------------------------------------------------- {cn} ({path}) *)")
+            # ---------------- forward(self, *inputs, **kwargs)
+            f = mm["forward"]
+            where = f"{cn}.forward"
+            if [a.arg for a in f.args.args] != ["self"] or not f.args.vararg or f.args.vararg.arg != "inputs" or f.args.kwonlyargs:
+                raise TranslationError(f"{where}: expected (self, *inputs, **kwargs)")
+            body = _nc_strip(f.body)
+            if len(body) < 2 or not isinstance(body[-1], ast.Return) or ast.unparse(body[-1].value) != "self.current":
+                raise TranslationError(f"{where}: expected `return self.current` last")
+            writes = []
+            for st in body[:-1]:
+                if not (isinstance(st, ast.Assign) and len(st.targets) == 1 and isinstance(st.targets[0], ast.Attribute)
+                        and ast.unparse(st.targets[0].value) == "self" and st.targets[0].attr in SC_RECORD
+                        and st.targets[0].attr not in writes):
+                    raise TranslationError(f"{where}: unsupported statement {ast.unparse(st)}")
+                attr = st.targets[0].attr
+                if attr == "spike":
+                    if writes:
+                        raise TranslationError(f"{where}: the spike must be stored first")
+                    v, used = _sc_expr(where, st.value, {"inputs_0": "T"}, want="B")
+                    if used:
+                        raise TranslationError(f"{where}: the spike conversion reads attributes")
+                    out.append(f"Definition {cn}_forward_spike (N : Num) (inputs_0 : T N) : bool :=\n  {v}.\n")
+                else:
+                    rest = ""
+                    val = st.value
+                    if isinstance(val, ast.Call) and ast.unparse(val.func) == "sum":
+                        # sum((<first>, *inputs[1:])): python's sum starts from the integer 0
+                        if len(val.args) != 1 or val.keywords or not isinstance(val.args[0], ast.Tuple) or len(val.args[0].elts) != 2 \
+                                or ast.unparse(val.args[0].elts[1]) != "*inputs[1:]":
+                            raise TranslationError(f"{where}: unsupported sum {ast.unparse(val)}")
+                        v, used = _sc_expr(where, val.args[0].elts[0], {"inputs_0": "T"})
+                        v = f"(fold_left (add N) inputs_rest (add N (zero N) {v}))"
+                        rest = " (inputs_rest : list (T N))"
+                    else:
+                        v, used = _sc_expr(where, val, {"inputs_0": "T"})
+                    out.append(f"(* the value pushed to record {SC_RECORD[attr]} ({attr}) *)\n"
+                               f"Definition {cn}_forward_{attr} (N : Num){_sc_params(used)} (inputs_0 : T N){rest} : T N :=\n  {v}.\n")
+                writes.append(attr)
+            if not writes or writes[0] != "spike":
+                raise TranslationError(f"{where}: the spike is not stored")
+            out.append(f"(* records written by forward, in order *)\n"
+                       f"Definition {cn}_forward_writes : list nat := [{'; '.join(str(SC_RECORD[w]) for w in writes)}].\n")
+            _sc_man(man, path, where, f)
+            # ---------------- clear
+            f = mm["clear"]
+            resets = []
+            for st in _nc_strip(f.body):
+                m = re.fullmatch(r"self\.(\w+_)\.reset\((False|0\.0)\)", ast.unparse(st))
+                if not m or m.group(1) not in SC_RECORD or SC_RECORD[m.group(1)] in resets:
+                    raise TranslationError(f"{cn}.clear: unsupported statement {ast.unparse(st)}")
+                resets.append(SC_RECORD[m.group(1)])
+            out.append(f"(* records reset (to the resting value False / 0.0) by clear *)\n"
+                       f"Definition {cn}_clear_resets : list nat := [{'; '.join(map(str, resets))}].\n")
+            _sc_man(man, path, f"{cn}.clear", f)
+            # ---------------- the current getter
+            if cn == "DeltaCurrent":
+                cl = [n for n in ast.walk(mm["__init__"]) if isinstance(n, ast.FunctionDef) and n.name == "spike_to_current"]
+                calls = [ast.unparse(n) for n in ast.walk(mm["__init__"]) if isinstance(n, ast.Call)
+                         and ast.unparse(n.func) == "SpikeDerivedCurrentMixin.__init__"]
+                if len(cl) != 1 or [a.arg for a in cl[0].args.args] != ["synapse", "dtype", "device", "spikes"] \
+                        or len(calls) != 1 or "spike_to_current" not in calls[0]:
+                    raise TranslationError(f"{cn}.__init__: closure spike_to_current(synapse, dtype, device, spikes) not found")
+                cb = _nc_strip(cl[0].body)
+                if len(cb) != 1 or not isinstance(cb[0], ast.Return):
+                    raise TranslationError(f"{cn}.spike_to_current: expected a single return")
+                v, used = _sc_expr(f"{cn}.spike_to_current", cb[0].value, {"spikes": "B", "dtype": "none", "device": "none"}, owner="synapse")
+                out.append(f"(* the derived current: spike_to_current of the newest spike *)\n"
+                           f"Definition {cn}_spike_to_current (N : Num){_sc_params(used)} (spikes : bool) : T N :=\n  {v}.\n")
+                _sc_man(man, path, f"{cn}.spike_to_current", cl[0])
+            if cn == "DoubleExponentialCurrent":
+                g = mm.get("current")
+                gb = _nc_strip(g.body) if g else []
+                if len(gb) != 1 or not isinstance(gb[0], ast.Return):
+                    raise TranslationError(f"{cn}.current: expected a single return")
+                v, used = _sc_expr(f"{cn}.current", gb[0].value, {"pos_current_peek": "T", "neg_current_peek": "T"})
+                out.append(f"Definition {cn}_current (N : Num) (pos_current_peek : T N) (neg_current_peek : T N) : T N :=\n  {v}.\n")
+                _sc_man(man, path, f"{cn}.current", g)
+                f = mm.get("current_at")
+                if f is None or [a.arg for a in f.args.args] != ["self", "selector"]:
+                    raise TranslationError(f"{cn}.current_at(self, selector) not found")
+                r0, r1 = _sc_overbound(f"{cn}.current_at", _nc_strip(f.body),
+                                       ("self.spike_.recordsz == 1", "self.spike_.duration", "self.__tolerance", "self.__current_overbound"),
+                                       out, f"{cn}_current_at", None)
+                v0, _ = _sc_expr(f"{cn}.current_at", r0, {"pos_current_peek": "T", "neg_current_peek": "T"})
+                sel = {"self.pos_current_.select(bounded_selector, interp_expdecay, tolerance=self.__tolerance, interp_kwargs={'time_constant': self.tc_decay})": "pos_selected",
+                       "self.neg_current_.select(bounded_selector, interp_expdecay, tolerance=self.__tolerance, interp_kwargs={'time_constant': self.tc_rise})": "neg_selected"}
+                v1, _ = _sc_expr(f"{cn}.current_at", r1, {"pos_selected": "T", "neg_selected": "T"}, extra=sel)
+                if "pos_selected" not in v1 or "neg_selected" not in v1:
+                    raise TranslationError(f"{cn}.current_at: unexpected selects {ast.unparse(r1)}")
+                out.append(f"Definition {cn}_current_at_now (N : Num) (pos_current_peek : T N) (neg_current_peek : T N) : T N :=\n  {v0}.\n")
+                out.append(f"(* pos_selected / neg_selected: pos_current_ / neg_current_ selected at the bounded time with interp_expdecay and "
+                           f"tc_decay / tc_rise *)\n"
+                           f"Definition {cn}_current_at_selected (N : Num) (pos_selected : T N) (neg_selected : T N) : T N :=\n  {v1}.\n")
+                _sc_man(man, path, f"{cn}.current_at", f)
+    return "\n".join(out), man
+
+
 SPECIAL = {"Conv": translate_conv_outsize, "SpikeMath": translate_spikemath,
-           "Constraints": translate_constraints, "NeuronClasses": translate_neuron_classes}
+           "Constraints": translate_constraints, "NeuronClasses": translate_neuron_classes,
+           "SynapseClasses": translate_synapse_classes}
 
 
 def generate(outdir: str, modules: list[str] | None = None, repo: str = REPO):
